@@ -442,6 +442,9 @@ def _history(draw, tier):
             if not any(a["do"] == "close" for a in script) and draw(st.integers(0, 5)) == 2:
                 # ... also a subscriber to one of the peer-request types next to the internal handler
                 types = sorted(set(types + [draw(st.sampled_from([5, 7, 36]))]))
+            if draw(st.integers(0, 5)) == 4:
+                # the caller's type tuple names a type twice (built by concatenating overlapping tuples)
+                types = [types[0]] + types if draw(st.booleans()) else types + [types[0]]
             ops.append({"op": "sub", "id": cid, "types": types, "script": script})
             ids.append(cid)
         elif r == 4 and draw(st.booleans()):
@@ -535,6 +538,13 @@ def enumerated(tier):
                     subs = [{"op": "sub", "id": f"c{k}", "types": [26], "script": [{"at": at, "do": do}] if k == 0 else []} for k in range(n)]
                     msgs = [{"op": "msg", "type": 26, "payload": {"key": k}, "merge": k % 2 == 0} for k in range(4)]
                     yield {"kind": "history", "noise": noise, "ops": subs + msgs}
+    # a subscription whose type tuple names a type twice: unsubscribing removes it from every type
+    for noise in (False, True):
+        for types in ([26, 26, 25], [26, 25, 26], [25, 26, 26, 21], [26, 26]):
+            for how in ("unsub", "self"):
+                sub = {"op": "sub", "id": "c0", "types": types, "script": [{"at": 1, "do": "unsub_self"}] if how == "self" else []}
+                msgs = [{"op": "msg", "type": t, "payload": {"key": k}} for k, t in enumerate([26, 25, 21, 26, 25])]
+                yield {"kind": "history", "noise": noise, "ops": [sub] + msgs[:1] + ([{"op": "unsub", "id": "c0"}] if how == "unsub" else []) + msgs[1:]}
     # crossed disconnects: the device's requests arrive while the client's own disconnect is in flight
     for noise in (False, True):
         for what in ("discreq", "ping", "gettime"):
